@@ -273,7 +273,9 @@ func (s *Server) serveHealthz(w http.ResponseWriter, r *http.Request) {
 
 	w.Header().Set("Content-Type", "application/json")
 
-	_ = json.NewEncoder(w).Encode(result)
+	// The search ran with access to all tenants. Only report its statistics,
+	// never the matches or repository names it found.
+	_ = json.NewEncoder(w).Encode(&zoekt.SearchResult{Stats: result.Stats})
 }
 
 func (s *Server) serveSearch(w http.ResponseWriter, r *http.Request) {
